@@ -5,9 +5,10 @@
     first place without a token.  [agreed cps stoks (is_end_error e)] is the part of [stoks] the
     scanner must reproduce token for token before anything may go wrong:
       - it stops before the first token of a known class (dangling-exponent, inner-bom);
-      - when the grammar ends in an error it also leaves out the LAST token before the failure
-        point: a comment that runs into a character outside SourceCharacter is reported by the
-        scanner while it is still inside that comment.
+      - when the grammar ends in an error and the LAST token before the failure point is a comment,
+        it leaves that comment out: a comment that runs into a character outside SourceCharacter
+        is reported by the scanner while it is still inside that comment (and the scanner's
+        comment token extends to the end of the line).
     [agreed_count]: the number of code points the agreed tokens cover (they are contiguous from the
     start of the text), i.e. the index before which no error may be reported. *)
 From Coq Require Import List NArith ZArith Bool.
@@ -17,13 +18,16 @@ Import ListNotations.
 Definition is_end_error (e : spec_end) : bool :=
   match e with EndError _ _ _ _ => true | _ => false end.
 
+Definition is_comment (t : stoken) : bool :=
+  match st_kind t with KComment => true | _ => false end.
+
 Fixpoint agreed (cps : list cp) (stoks : list stoken) (failing : bool) : list stoken :=
   match stoks with
   | [] => []
   | t :: rest =>
       if dangling_exponent cps t || inner_bom t then []
       else match rest with
-           | [] => if failing then [] else [t]
+           | [] => if failing && is_comment t then [] else [t]
            | _ :: _ => t :: agreed cps rest failing
            end
   end.
